@@ -1,13 +1,10 @@
-"""C14 - batching loses nothing: buckets, loaders and collation preserve every utterance.
-
-Bounded run-time contracts only so far (contracts/C14_rt.py); the deductive clauses of DESIGN.md
-section 3 (C14.bucket.iter_inv, C14.len.formula, C14.collate.lossless element-wise, C14.window.post)
-are added here when written.
-"""
-from contracts import C14_rt
+"""C14 - batching loses nothing: buckets, loaders and collation preserve every utterance."""
+from contracts import C14_rt, C14_vc
+from vf.pyvc import api
 
 CHECKERS = dict(C14_rt.CHECKERS)
 
 
 def run(ctx):
+    api.run_vcs(ctx, C14_vc.vcs(ctx), {"C14.bucket.iter_inv": "BucketBatchSampler.__iter__ for a sampler of symbolic length: per bucket consumed = full*size + pending with 0 <= pending < size; yielded batches have exactly the bucket's size; drop => only the incomplete batch is lost, else flushed once; len formula lemma"})
     C14_rt.run_bounded(ctx)
